@@ -27,7 +27,7 @@ class GraphvizExporter:
             tree (MultistageTree): The tree to export.
             filename (Path or None): The output file path. If None, prints to stdout.
         """
-        file = sys.stdout if filename is None else open(filename, 'w')
+        file = sys.stdout if filename is None else open(filename, 'w', encoding='utf-8')
 
         try:
             file.write('digraph G {\n')
